@@ -169,6 +169,15 @@ theorem reuse_keeps_capacity (p : State) (d : Nat) (hd : d ≠ 0) :
   have : (d == 0) = false := by simp [hd]
   simp [this]
 
+/-- **The size handed back with a reused buffer is ignored, whatever it is** (also 0: the repair of D41): the
+TurboJPEG manager with reallocation enabled keeps the buffer and the capacity it remembers. -/
+theorem reuse_ignores_declared_size (p : State) (d : Nat) :
+    start .tj true (.reuse d) (some p) =
+      .ok ⟨.tj, true, p.bufId, p.cap, p.cap, [], p.nalloc, (if p.lib == some p.bufId then p.lib else none), []⟩ := by
+  unfold start
+  simp
+
+
 /-- **Never frees a buffer the caller owns**: during one image, every buffer the manager
 passes to `free()` was allocated by the manager during this same image, or is the buffer
 the caller handed back for reuse.  In particular a buffer returned by an earlier call and
